@@ -2,6 +2,7 @@ import TpmModel.Ser
 import TpmModel.ValParse
 import TpmModel.Spec
 import TpmModel.MsgSpec
+import TpmModel.E2O
 import TpmModel.Generated.Cmd
 import TpmModel.Pinned.Cmd
 import TpmModel.Generated.Misc
@@ -151,6 +152,16 @@ def handle (line : String) : List String :=
       | some (bs, evs) => ("B " ++ (if bs.isEmpty then "-" else hexOfBytes bs)) :: evs.map fun (o, e) => s!"E {o} {e.str}"
     | none, _ => ["X unknown-type " ++ ty]
     | _, none => ["X bad-val"]
+  | ["E2O", mode, ty, cc, enc, hex] =>
+    -- events_to_obj over the (marshal) events of the model's own decode
+    match parseTop ty cc enc, bytesOfHex hex with
+    | some top, some inp =>
+      let w := runWalker (mode == "S") Generated.msgTables top inp
+      let evs := (stOf w).out.filterMap fun ke => match ke.2 with | .marshal m => some m | .warning _ => none
+      [match e2oTop Generated.msgTables top evs with
+       | some v => "B " ++ v.str
+       | none => "B crash"]
+    | _, _ => ["X bad-e2o-op"]
   | ["MSPEC", ty, cc, enc, hex] =>
     -- is this message well-formed in the sense of `specCommand` / `specResponse` / `specStream`, and do the bytes and
     -- events the specification dictates coincide with the input and with the strict decode of the model?
